@@ -335,6 +335,12 @@ Box<ITV>::add_constraints(const Constraint_System& cs) {
     throw_dimension_incompatible("add_constraints(cs)", cs);
   }
 
+  // Validate all the constraints on a scratch object first, so that
+  // a rejected call leaves `*this' unchanged.
+  {
+    Box scratch(space_dimension(), UNIVERSE);
+    scratch.add_constraints_no_check(cs);
+  }
   add_constraints_no_check(cs);
 }
 
